@@ -1,6 +1,7 @@
 package core
 
 import (
+	"strconv"
 	"bytes"
 	"encoding/json"
 	"fmt"
@@ -55,6 +56,29 @@ type deathInfo struct {
 }
 
 var fatalRe = regexp.MustCompile(`(?m)^fatal error: (.*)$`)
+
+// procCPUTicks returns user+system time (own and of waited-for children) of a process in clock ticks, -1 if unknown
+func procCPUTicks(pid int) int64 {
+	b, err := os.ReadFile(fmt.Sprintf("/proc/%d/stat", pid))
+	if err != nil {
+		return -1
+	}
+	i := strings.LastIndexByte(string(b), ')')
+	if i < 0 {
+		return -1
+	}
+	f := strings.Fields(string(b[i+1:]))
+	if len(f) < 15 {
+		return -1
+	}
+	var total int64
+	for _, k := range []int{11, 12, 13, 14} { // utime stime cutime cstime (fields 14..17 of the line)
+		var v int64
+		fmt.Sscan(f[k], &v)
+		total += v
+	}
+	return total
+}
 
 func classifyDeath(stderr string, cpu bool, ws syscall.WaitStatus, wallFired bool) string {
 	switch {
@@ -182,6 +206,9 @@ func RunCheck(id, tier string, seed int64, replayFile string) int {
 	if wall == 0 {
 		wall = 900
 	}
+	if v, err := strconv.Atoi(os.Getenv("VERIF_WALL_SEC")); err == nil && v > 0 {
+		wall = v // for testing the watchdog itself
+	}
 
 	var mu sync.Mutex
 	next := 0
@@ -248,14 +275,40 @@ func RunCheck(id, tier string, seed int64, replayFile string) int {
 						mu.Unlock()
 						break
 					}
-					timer := time.AfterFunc(time.Duration(wall)*time.Second, func() {
-						wallFired = true
-						syscall.Kill(-cmd.Process.Pid, syscall.SIGQUIT)
-						time.Sleep(3 * time.Second)
-						syscall.Kill(-cmd.Process.Pid, syscall.SIGKILL)
-					})
+					// the wall-clock watchdog is for a worker that is stuck, not for one that is slow on a loaded
+					// machine: it fires when for `wall` seconds the journal has not grown and the worker has
+					// used (next to) no CPU time; a worker that computes is bounded by the CPU watchdog
+					stopWatch := make(chan struct{})
+					go func(pid int) {
+						lastProgress := time.Now()
+						lastSize, lastCPU := int64(-1), int64(-1)
+						tick := time.NewTicker(5 * time.Second)
+						defer tick.Stop()
+						for {
+							select {
+							case <-stopWatch:
+								return
+							case <-tick.C:
+							}
+							var size int64
+							if fi, err := os.Stat(jf); err == nil {
+								size = fi.Size()
+							}
+							cpu := procCPUTicks(pid)
+							if size != lastSize || cpu >= lastCPU+100 || lastCPU < 0 {
+								lastProgress, lastSize, lastCPU = time.Now(), size, cpu
+							}
+							if time.Since(lastProgress) > time.Duration(wall)*time.Second {
+								wallFired = true
+								syscall.Kill(-pid, syscall.SIGQUIT)
+								time.Sleep(3 * time.Second)
+								syscall.Kill(-pid, syscall.SIGKILL)
+								return
+							}
+						}
+					}(cmd.Process.Pid)
 					werr := cmd.Wait()
-					timer.Stop()
+					close(stopWatch)
 					syscall.Kill(-cmd.Process.Pid, syscall.SIGKILL) // stray grandchildren
 					done, open, cpu, note := readJournal(jf)
 					if ms, _ := filepath.Glob(raceLog + ".*"); len(ms) > 0 {
